@@ -540,12 +540,14 @@ class Builder:
             if r.chance(1, 40):
                 nm = r.choice(["TO", "FROM"])
             vars_.append((nm + acc, j))
+            leaves = [x for x in leaves if x[0] != nm + acc]
             leaves.append((nm + acc, self.var_type(j, acc)))
         consts = []
         for ci in range(r.below(3)):
             nm = "C%d" % ci
             if r.chance(1, 10) and vars_:
                 nm = vars_[0][0]                     # a constant shadowing a variable
+            leaves = [x for x in leaves if x[0] != nm]          # the newer binding decides the type
             if is_float:
                 consts.append((nm, self.some_float()))
                 leaves.append((nm, "f"))
@@ -560,6 +562,7 @@ class Builder:
                 nm = consts[0][0]                    # an expression shadowing a constant (and not using the name itself)
                 lv = [x for x in leaves if x[0] != nm]
             t, ty = self.tree(2, lv)
+            leaves = [x for x in leaves if x[0] != nm]
             exprs.append((nm, t))
             leaves.append((nm, ty))
         if r.chance(1, 60):
@@ -792,8 +795,9 @@ class Builder:
             isf = kind == "converter"
             tot = self.var_type(p, "")
             kn, leaves = self.knife(isf)
-            fto = self.tree(2, leaves + [("FROM", "f" if isf else "i")] * 3)[0]
-            ffrom = self.tree(2, leaves + [("TO", tot)] * 3)[0]
+            bound = {x[0] for x in leaves}                      # a variable / constant named TO or FROM wins
+            fto = self.tree(2, leaves + ([("FROM", "f" if isf else "i")] * 3 if "FROM" not in bound else []))[0]
+            ffrom = self.tree(2, leaves + ([("TO", tot)] * 3 if "TO" not in bound else []))[0]
             if r.chance(1, 3):
                 c = r.choice([1, 2, 4, 10])
                 fto = ("bin", "*", ("id", "FROM"), ("int", c, "dec"))
